@@ -14,6 +14,8 @@ import (
 	"sort"
 	"strconv"
 	"strings"
+	"syscall"
+	"unsafe"
 
 	"github.com/go-gts/gts/internal/verifsim/core"
 )
@@ -31,19 +33,27 @@ func fidelityMain(args []string) int {
 	if len(args) > 2 {
 		seed, _ = strconv.ParseUint(args[2], 10, 64)
 	}
-	steps, hits := 0, 0
+	steps, hits, ttySteps := 0, 0, 0
 	for i := 0; i < n; i++ {
 		r := core.NewRNG(core.Mix(seed, 0xf1de, uint64(i)))
 		sc := genHistory(r, "quick")
 		sc.Env = cliEnv{Cache: "ok", Tmp: "ok"}
-		// the real binary cannot be given a terminal: every step reads its input from a pipe
-		for k := range sc.Steps {
-			rs := sc.Steps[k].Run
-			if rs == nil || len(rs.Argv) == 0 || rs.Argv[0] == "cache" || rs.Stdin != "" {
-				continue
+		// steps whose stdin is a terminal get a pseudo-terminal when the machine
+		// has one to give; otherwise they are turned into piped steps
+		if !havePty() {
+			for k := range sc.Steps {
+				rs := sc.Steps[k].Run
+				if rs == nil || len(rs.Argv) == 0 || rs.Argv[0] == "cache" || rs.Stdin != "" {
+					continue
+				}
+				rs.Stdin = rs.Argv[len(rs.Argv)-1]
+				rs.Argv = rs.Argv[:len(rs.Argv)-1]
 			}
-			rs.Stdin = rs.Argv[len(rs.Argv)-1]
-			rs.Argv = rs.Argv[:len(rs.Argv)-1]
+		}
+		for k := range sc.Steps {
+			if rs := sc.Steps[k].Run; rs != nil && rs.Stdin == "" {
+				ttySteps++
+			}
 		}
 		res := &core.Result{}
 		x := execCli("C14", sc, res, wrapC14)
@@ -61,6 +71,7 @@ func fidelityMain(args []string) int {
 			return 2
 		}
 	}
+	fmt.Printf("selftest fidelity: pseudo-terminal available=%v, %d invocations ran with stdin on a terminal\n", havePty(), ttySteps)
 	fmt.Printf("selftest fidelity: %d histories, %d invocations (%d served from the cache) agree between the simulator and the real binary (stdout, status, user files, cache directory image)\n", n, steps, hits)
 	return 0
 }
@@ -103,11 +114,24 @@ func fidelityReal(sc *cliScenario, x *cliExec, root, bin string) (bool, string, 
 			cmd := exec.Command(bin, argv...)
 			cmd.Dir = root + "/u"
 			cmd.Env = []string{"XDG_CACHE_HOME=" + root + "/cache", "TMPDIR=" + root + "/tmp", "PATH=/usr/bin:/bin"}
-			if st.Run.Stdin != "" {
+			if st.Run.Stdin != "" && st.Run.StdinFile {
+				// gts < file, with the descriptor already advanced by the caller
+				f, err := realos.Open(root + st.Run.Stdin)
+				if err != nil {
+					return false, fmt.Sprintf("step %d: %v", k, err), hits
+				}
+				f.Seek(int64(st.Run.StdinOffset), 0)
+				cmd.Stdin = f
+				defer f.Close()
+			} else if st.Run.Stdin != "" {
 				d, _ := realos.ReadFile(root + st.Run.Stdin)
 				cmd.Stdin = bytes.NewReader(d)
+			} else if m, sl, err := openPty(); err == nil {
+				// stdin is a terminal nobody types on
+				cmd.Stdin = sl
+				defer m.Close()
+				defer sl.Close()
 			} else {
-				// no terminal available: an empty pipe; only "cache purge" runs this way
 				cmd.Stdin = bytes.NewReader(nil)
 			}
 			var out bytes.Buffer
@@ -176,4 +200,42 @@ func sha(b []byte) []byte {
 	h := newHashByName("sha256")
 	h.Write(b)
 	return h.Sum(nil)[:8]
+}
+
+// openPty returns the two ends of a fresh pseudo-terminal.
+func openPty() (master, slave *realos.File, err error) {
+	master, err = realos.OpenFile("/dev/ptmx", realos.O_RDWR|syscall.O_NOCTTY, 0)
+	if err != nil {
+		return nil, nil, err
+	}
+	var unlock int32
+	if _, _, e := syscall.Syscall(syscall.SYS_IOCTL, master.Fd(), syscall.TIOCSPTLCK, uintptr(unsafe.Pointer(&unlock))); e != 0 {
+		master.Close()
+		return nil, nil, e
+	}
+	var n uint32
+	if _, _, e := syscall.Syscall(syscall.SYS_IOCTL, master.Fd(), syscall.TIOCGPTN, uintptr(unsafe.Pointer(&n))); e != 0 {
+		master.Close()
+		return nil, nil, e
+	}
+	slave, err = realos.OpenFile(fmt.Sprintf("/dev/pts/%d", n), realos.O_RDWR|syscall.O_NOCTTY, 0)
+	if err != nil {
+		master.Close()
+		return nil, nil, err
+	}
+	return master, slave, nil
+}
+
+var ptyState int
+
+func havePty() bool {
+	if ptyState == 0 {
+		ptyState = -1
+		if m, s, err := openPty(); err == nil {
+			m.Close()
+			s.Close()
+			ptyState = 1
+		}
+	}
+	return ptyState == 1
 }
